@@ -6,7 +6,7 @@ set -u
 d="$1"; pid="$2"; slot="${3:-0}"; tier="${4:-quick}"
 root=/tmp/mut/s$slot
 mkdir -p $root
-[ -d $root/repo ] || git -C /repo worktree add --detach $root/repo HEAD >/dev/null 2>&1
+[ -d $root/repo ] || { git -C /repo worktree prune; git -C /repo worktree add --detach $root/repo HEAD >/dev/null 2>&1; }
 git -C $root/repo checkout --detach -q $(git -C /repo rev-parse HEAD) 2>/dev/null; git -C $root/repo checkout -- . 
 rsync -a --exclude .git --exclude replays /verif/ $root/verif/
 ( cd $root/repo && git apply "$d/patch.diff" ) || { echo "APPLY-FAILED $d"; exit 3; }
